@@ -299,6 +299,17 @@ impl World for DataWorld {
         self.spec.acts.len()
     }
 
+    fn take_server(&mut self) -> Option<(Srv, Client)> {
+        if let Some(a) = self.aux.as_mut() {
+            a.discard();
+        }
+        self.aux = None;
+        match (self.srv.take(), self.cli.take()) {
+            (Some(s), Some(c)) => Some((s, c)),
+            _ => None,
+        }
+    }
+
     fn describe(&self, act: usize) -> String {
         describe_act(&self.spec.acts[act])
     }
